@@ -357,6 +357,9 @@ func posOf(fr *frame, instr ssa.Instruction) string {
 func (ch *Chan) take() Value {
 	v := ch.buf[0]
 	ch.buf = ch.buf[1:]
+	if len(ch.buf) == 0 {
+		ch.handoff = false
+	}
 	if ch.cap == 0 {
 		return *(v.(*Value))
 	}
@@ -399,6 +402,18 @@ type timerState struct {
 	fired    bool
 	periodic bool
 	stopped  bool
+	fires    int // how often a periodic timer has fired (bounded by Config.MaxTicks)
+}
+
+// fireable: the timer can still fire (one-shot: not fired yet; ticker: below the bound).
+func (t *timerState) fireable(maxTicks int) bool {
+	if t.stopped {
+		return false
+	}
+	if t.periodic {
+		return t.fires < maxTicks
+	}
+	return !t.fired
 }
 
 // timerRecvReady decides (symbolically free choice) whether the timer has fired by now.
@@ -414,12 +429,16 @@ func (p *Path) timerRecvReady(fr *frame, instr ssa.Instruction, ch *Chan, must b
 	if t.fired && !t.periodic {
 		return false
 	}
+	if t.periodic && t.fires >= p.cfg.MaxTicks {
+		return false // bound on ticker firings (stated in the evidence)
+	}
 	fire := must
 	if !must {
 		fire = p.decide(2, "timer") == 1
 	}
 	if fire {
 		t.fired = true
+		t.fires++
 		ch.buf = append(ch.buf, p.zeroTime())
 		return true
 	}
@@ -452,6 +471,13 @@ func (p *Path) selectOp(fr *frame, instr *ssa.Select) Value {
 	}
 	ready := func() []int {
 		var r []int
+		// a sender has already completed a rendezvous on one of our unbuffered channels
+		// (it chose us while we were blocked here): that case is the one that fires
+		for i, c := range cases {
+			if c.ch != nil && !c.send && c.ch.cap == 0 && c.ch.handoff && len(c.ch.buf) > 0 {
+				return []int{i}
+			}
+		}
 		for i, c := range cases {
 			if c.ch == nil {
 				continue
@@ -492,7 +518,7 @@ func (p *Path) selectOp(fr *frame, instr *ssa.Select) Value {
 			}
 			hasTimer := false
 			for _, c := range cases {
-				if !c.send && c.ch != nil && c.ch.timer != nil && !c.ch.timer.stopped && (!c.ch.timer.fired || c.ch.timer.periodic) {
+				if !c.send && c.ch != nil && c.ch.timer != nil && c.ch.timer.fireable(p.cfg.MaxTicks) {
 					hasTimer = true
 				}
 			}
@@ -500,7 +526,7 @@ func (p *Path) selectOp(fr *frame, instr *ssa.Select) Value {
 				// nothing else can happen: the earliest timer fires
 				var tc []*Chan
 				for _, c := range cases {
-					if !c.send && c.ch != nil && c.ch.timer != nil && !c.ch.timer.stopped && (!c.ch.timer.fired || c.ch.timer.periodic) {
+					if !c.send && c.ch != nil && c.ch.timer != nil && c.ch.timer.fireable(p.cfg.MaxTicks) {
 						tc = append(tc, c.ch)
 					}
 				}
@@ -513,7 +539,7 @@ func (p *Path) selectOp(fr *frame, instr *ssa.Select) Value {
 					}
 					// a pending timer among the cases can fire at any moment
 					for _, c := range cases {
-						if !c.send && c.ch != nil && c.ch.timer != nil && !c.ch.timer.stopped && (!c.ch.timer.fired || c.ch.timer.periodic) {
+						if !c.send && c.ch != nil && c.ch.timer != nil && c.ch.timer.fireable(p.cfg.MaxTicks) {
 							return true
 						}
 					}
@@ -530,7 +556,7 @@ func (p *Path) selectOp(fr *frame, instr *ssa.Select) Value {
 				// woken because a timer may fire: let one fire
 				var tc []*Chan
 				for _, c := range cases {
-					if !c.send && c.ch != nil && c.ch.timer != nil && !c.ch.timer.stopped {
+					if !c.send && c.ch != nil && c.ch.timer != nil && c.ch.timer.fireable(p.cfg.MaxTicks) {
 						tc = append(tc, c.ch)
 					}
 				}
@@ -558,8 +584,21 @@ func (p *Path) selectOp(fr *frame, instr *ssa.Select) Value {
 			if c.ch.cap > 0 {
 				c.ch.buf = append(c.ch.buf, copyVal(c.val))
 			} else {
+				// rendezvous: a receiver is blocked on this channel; it is committed to this
+				// value, and the sender continues only after the value has been taken
 				v := copyVal(c.val)
-				c.ch.buf = append(c.ch.buf, &v)
+				item := &v
+				c.ch.buf = append(c.ch.buf, item)
+				c.ch.handoff = true
+				ch := c.ch
+				p.block(fr, instr, "rendezvous (select send) on "+ch.name, func() bool {
+					for _, b := range ch.buf {
+						if b == Value(item) {
+							return ch.closed
+						}
+					}
+					return true
+				})
 			}
 		} else {
 			if len(c.ch.buf) > 0 {
